@@ -6,16 +6,22 @@
 (* Everything here is phrased on what an observer of the pool sees:          *)
 (*   cfg       [T, ta, nconc, strategy, servers]; times in milliseconds;     *)
 (*             T = configured timeout, ta = per-attempt timeout of a         *)
-(*             connection (ta <= T; the stock provider uses ta = T);         *)
-(*   server    [trusted, udp, tcp]: a script per configured transport        *)
-(*             (empty = transport not configured); the n-th request a        *)
-(*             (server, transport) pair receives is treated according to     *)
-(*             the n-th behaviour of its script (the last one repeats);      *)
+(*             connection (ta <= T; the stock provider uses ta = T), ct =    *)
+(*             configured timeout of a TCP connection attempt;               *)
+(*   server    [trusted, udp, tcp, tc, idle]: a script per configured        *)
+(*             transport (empty = transport not configured); the n-th        *)
+(*             request a (server, transport) pair receives is treated        *)
+(*             according to the n-th behaviour of its script (the last one   *)
+(*             repeats); tc is the script of its TCP connection attempts     *)
+(*             ([k, lat] with k in ok | refused | blackhole), idle > 0 means *)
+(*             it closes a TCP connection that many ms after its last reply  *)
+(*             when nothing is outstanding (and accepts a new connection);   *)
 (*   behaviour [k, lat]: k in answer | nx | trunc | io | busy | timeout;     *)
 (*   attempt   [s, p, n, o, q, st, en, res]: request number n to server s    *)
 (*             over p, made at time st on behalf of caller o (the origin),   *)
 (*             res = "" while no reply has been delivered (an attempt the    *)
-(*             pool abandons stays that way);                                *)
+(*             pool abandons stays that way); p = "conn" records the n-th    *)
+(*             TCP connection attempt to s (res: connected | io);            *)
 (*   done      [t, class, from, err]: what a caller got and when; class in   *)
 (*             answer | nx | trunc | error | hung.                           *)
 (* The operators never look at how the pool orders its servers, how many it  *)
@@ -27,7 +33,7 @@ Inf == 1000000000
 Lo(a, b) == IF a < b THEN a ELSE b
 Hi(a, b) == IF a > b THEN a ELSE b
 
-Script(srv, p)   == IF p = "udp" THEN srv.udp ELSE srv.tcp
+Script(srv, p)   == IF p = "udp" THEN srv.udp ELSE IF p = "tcp" THEN srv.tcp ELSE srv.tc
 HasProto(srv, p) == Len(Script(srv, p)) > 0
 Protos(srv)      == {p \in {"udp", "tcp"} : HasProto(srv, p)}
 BehAt(script, n) == IF n <= Len(script) THEN script[n] ELSE script[Len(script)]
@@ -35,6 +41,18 @@ BehAt(script, n) == IF n <= Len(script) THEN script[n] ELSE script[Len(script)]
 \* a reply that would arrive at or after the per-attempt timeout is a timeout
 EffKind(cfg, b) == IF b.k = "timeout" \/ b.lat >= cfg.ta THEN "timeout" ELSE b.k
 Dur(cfg, b)     == IF EffKind(cfg, b) = "timeout" THEN cfg.ta ELSE b.lat
+
+\* TCP connection attempts: refused after lat, black-holed (nothing comes back: given up after the
+\* configured connect timeout ct), or established after lat -- if that is before ct
+ConnKind(cfg, b) == IF b.k = "ok" /\ b.lat < cfg.ct THEN "connected" ELSE "io"
+ConnDur(cfg, b)  == IF b.k = "blackhole" \/ b.lat >= cfg.ct THEN cfg.ct ELSE b.lat
+\* outcome and duration of attempt number n over p
+KindOf(cfg, p, b) == IF p = "conn" THEN ConnKind(cfg, b) ELSE EffKind(cfg, b)
+DurOf(cfg, p, b)  == IF p = "conn" THEN ConnDur(cfg, b) ELSE Dur(cfg, b)
+
+\* how long busy servers keep being asked again: the pool's documented back-off (pauses of 20, 40,
+\* 80, 160 ms between passes over the busy servers, "until it hits 300ms") lasts at least this long
+BusyPatience == 300
 
 Servers(cfg) == 1..Len(cfg.servers)
 CountAt(A, s, p) == Cardinality({i \in DOMAIN A : A[i].s = s /\ A[i].p = p})
@@ -51,10 +69,18 @@ NextBeh(cfg, A, s, p) == BehAt(Script(cfg.servers[s], p), CountAt(A, s, p) + 1)
 (* transport the pool would pick -- the largest of them, so a server       *)
 (* counts as able to answer only if it answers whichever way it is asked.  *)
 (***************************************************************************)
-TcpPath(cfg, A, s) ==
+\* the request alone, on an established connection
+TcpReq(cfg, A, s) ==
     IF ~HasProto(cfg.servers[s], "tcp") THEN Inf
     ELSE LET b == NextBeh(cfg, A, s, "tcp") IN
          IF EffKind(cfg, b) = "answer" THEN Dur(cfg, b) ELSE Inf
+\* the observer does not know whether a connection is still pooled: a server counts as able to answer
+\* over TCP only if it would also accept a new connection now ("a server that closed an idle
+\* connection but accepts a new one is healthy")
+TcpPath(cfg, A, s) ==
+    LET c == NextBeh(cfg, A, s, "conn") IN
+    IF TcpReq(cfg, A, s) = Inf \/ ConnKind(cfg, c) # "connected" THEN Inf
+    ELSE ConnDur(cfg, c) + TcpReq(cfg, A, s)
 
 UdpPath(cfg, A, s) ==
     IF ~HasProto(cfg.servers[s], "udp") THEN Inf
@@ -83,9 +109,10 @@ LastOf(S)     == CHOOSE i \in S : \A j \in S : j <= i
 (*   - a request to s is still on its way and its answer is coming;        *)
 (*   - s replied "truncated" over UDP and has not been asked over TCP      *)
 (*     (statement: "a truncated UDP reply is retried over TCP");           *)
-(*   - s replied "busy" once and has not been asked again (the fault list  *)
-(*     of the statement names busy back-pressure; how often a busy server  *)
-(*     is retried beyond the first time is left open).                     *)
+(*   - the last reply of s was "busy" and less than BusyPatience has       *)
+(*     passed since its first busy reply in this lookup (the fault list of *)
+(*     the statement names busy back-pressure; the pool documents that it  *)
+(*     keeps asking busy servers again while its back-off lasts).          *)
 (* A server that already failed in this lookup (reset, timeout, NXDOMAIN)  *)
 (* owes nothing more.                                                      *)
 (***************************************************************************)
@@ -94,13 +121,20 @@ AnswerBy(cfg, A, o, s, c) ==
     IF M = {} THEN c + WorstPath(cfg, A, s)
     ELSE LET a == A[LastOf(M)]
              b == BehAt(Script(cfg.servers[s], a.p), a.n)
-         IN IF a.res = ""
+             busyAt == {A[i].en : i \in {j \in M : A[j].res = "busy"}}
+         IN IF a.p = "conn"
+            \* a connection attempt: if it succeeds the request follows at once
+            THEN IF a.res \in {"", "connected"} /\ ConnKind(cfg, b) = "connected" /\ TcpReq(cfg, A, s) < Inf
+                 THEN Hi(c, a.st + ConnDur(cfg, b)) + TcpReq(cfg, A, s)
+                 ELSE Inf
+            ELSE IF a.res = ""
             THEN IF EffKind(cfg, b) = "answer" THEN a.st + Dur(cfg, b)
                  ELSE IF EffKind(cfg, b) = "trunc" /\ a.p = "udp" /\ TcpPath(cfg, A, s) < Inf
                       THEN a.st + Dur(cfg, b) + TcpPath(cfg, A, s)
                       ELSE Inf
             ELSE IF a.res = "trunc" /\ a.p = "udp" THEN c + TcpPath(cfg, A, s)
-            ELSE IF a.res = "busy" /\ Cardinality(M) = 1 THEN c + WorstPath(cfg, A, s)
+            ELSE IF a.res = "busy" /\ c < (CHOOSE x \in busyAt : \A y \in busyAt : x <= y) + BusyPatience
+                 THEN c + WorstPath(cfg, A, s)
             ELSE Inf
 
 \* why server s is still owed a chance (for the report)
@@ -108,9 +142,9 @@ OwedKind(A, o, s) ==
     LET M == Mine(A, o, s) IN
     IF M = {} THEN "never-asked"
     ELSE LET a == A[LastOf(M)] IN
-         IF a.res = "" THEN "reply-on-its-way"
+         IF a.res \in {"", "connected"} THEN "reply-on-its-way"
          ELSE IF a.res = "trunc" THEN "truncated"
-         ELSE "busy-once"
+         ELSE "busy"
 
 \* servers whose answer would have arrived strictly before the deadline dl; an answer due at
 \* exactly dl may lose the race against the deadline, both outcomes are accepted there
@@ -127,7 +161,7 @@ TrustedNx(cfg, A, o) == \E i \in EndedWith(A, o, "nx") : cfg.servers[A[i].s].tru
 GiveUpKind(cfg, A, lk, d, pend) ==
     IF d.class = "nx" THEN "untrusted-nx-ended-search"
     ELSE IF \E s \in pend : OwedKind(A, lk.origin, s) = "truncated" THEN "truncated-not-retried-over-tcp"
-    ELSE IF \A s \in pend : OwedKind(A, lk.origin, s) = "busy-once" THEN "busy-server-not-retried"
+    ELSE IF \A s \in pend : OwedKind(A, lk.origin, s) = "busy" THEN "busy-server-not-retried"
     ELSE "healthy-server-not-used"
 
 Violations(cfg, A, lk, ct, d) ==
@@ -179,7 +213,8 @@ AnswerersOf(cfg) ==
 \* the longest a first visit to server s can take, whichever transport is used
 FirstVisit(cfg, s) ==
     LET srv == cfg.servers[s]
-        t   == IF HasProto(srv, "tcp") THEN Dur(cfg, srv.tcp[1]) ELSE 0
+        t   == IF ~HasProto(srv, "tcp") THEN 0
+               ELSE ConnDur(cfg, srv.tc[1]) + (IF ConnKind(cfg, srv.tc[1]) = "connected" THEN Dur(cfg, srv.tcp[1]) ELSE 0)
         u   == IF ~HasProto(srv, "udp") THEN 0
                ELSE Dur(cfg, srv.udp[1])
                     + (IF EffKind(cfg, srv.udp[1]) = "trunc" /\ HasProto(srv, "tcp") THEN t ELSE 0)
